@@ -721,8 +721,10 @@ class HelicityDecay(AmpDecay):
         self.barrier_factor_norm = barrier_factor_norm
         self.below_threshold = below_threshold
         self.ls_list = None
+        self._ls_list_option = None
         if ls_list is not None:
             self.ls_list = tuple([tuple(i) for i in ls_list])
+            self._ls_list_option = self.ls_list
         self.params_polar = params_polar
         self.mask_factor = False
         self.params_head = params_head
@@ -736,6 +738,16 @@ class HelicityDecay(AmpDecay):
             outs = [i.get_params_head() for i in self.outs]
             self.params_head = "{}->{}".format(core, "+".join(outs))
         return self.params_head
+
+    def as_config(self):
+        ret = super(HelicityDecay, self).as_config()
+        opt = ret[str(self.core)][-1]
+        # options that decide which (l,s) couplings (hence which chains) exist
+        if self.l_list is not None:
+            opt["l_list"] = list(self.l_list)
+        if self._ls_list_option is not None:
+            opt["ls_list"] = [list(i) for i in self._ls_list_option]
+        return ret
 
     def check_valid_jp(self):
         if len(self.get_ls_list()) == 0:
